@@ -226,7 +226,7 @@ theorem CInv.check_step {rest : List Cb} {e0 c : EvId} {s s' : KState ℚ σ} (h
   · intro d hg hm; exact hc.rem_gone d ((hgone d).mp hg) (List.mem_cons_of_mem _ hm)
   · intro e L d hL hm; rw [hcbs] at hL; rw [hS.ops_eq]; exact hc.bld_own e L d hL hm
   · intro d L hL hne; rw [hcbs] at hL; rw [hS.ops_eq] at hne; exact hc.bld_cnt d L hL hne
-  · intro d hm; exact hc.rem_bld_own d (List.mem_cons_of_mem _ hm)
+  · intro d hm; rw [hS.ops_eq]; exact hc.rem_bld_own d (List.mem_cons_of_mem _ hm)
   · intro d
     have := hc.rem_bld_cnt d
     rw [List.count_cons] at this
